@@ -46,5 +46,11 @@ CORPUS = [
     # benign
     Mut('c16-benign-reassociate', INT, C, 'momentum = momentum - self.step_size / 2.0 * dU', 'momentum = momentum - 0.5 * self.step_size * dU', benign=True),
     Mut('c16-benign-inplace', INT, C, 'params = params + self.step_size * inverse_mass_matrix * momentum', 'params = params + inverse_mass_matrix * momentum * self.step_size', benign=True),
+    Mut('c16-divergent-trajectories-redrawn', 'torchtree/inference/hmc/operator.py', '', "                ham = potential_energy + kinetic_energy\n", "                ham = potential_energy + kinetic_energy\n                if ham - ham0 > self._divergence_threshold:\n                    raise ValueError('divergent trajectory')\n",
+        expect=[('C16.K', 'integrated-proposals-always-reach-the-acceptance-test')], mode='text'),
+    Mut('c16-benign-divergence-logged-inside-the-retry-block', 'torchtree/inference/hmc/operator.py', '', "                ham = potential_energy + kinetic_energy\n", "                ham = potential_energy + kinetic_energy\n                if ham - ham0 > self._divergence_threshold:\n                    print('divergence')\n",
+        benign=True, mode='text'),
+    Mut('c16-default-mass-matrix-per-parameter-object', 'torchtree/inference/hmc/operator.py', '', "        self._mass_matrix = mass_matrix\n", "        if mass_matrix is None:\n            mass_matrix = Parameter(None, torch.ones(len(parameters)))\n        self._mass_matrix = mass_matrix\n",
+        expect=[('C16.K', 'size-from-the-number-of-parameter-objects')], mode='text'),
 ]
 CORPUS = [m for m in CORPUS if m.id != 'c16-stale-gradient']
